@@ -127,16 +127,12 @@ def py_parse_out(out):
         return None, "empty-host"
     if int(m.group(3)) > 65535:
         return None, "port-range"
+    zone = b""
+    if b"%" in host:
+        host, zone = host.split(b"%", 1)     # a zone is an opaque interface name
     try:
-        hs = host.decode("ascii")
-    except UnicodeDecodeError:
-        return None, "not-literal"
-    zone = ""
-    if "%" in hs:
-        hs, zone = hs.split("%", 1)
-    try:
-        ip = ipaddress.ip_address(hs)
-    except ValueError:
+        ip = ipaddress.ip_address(host.decode("ascii"))
+    except (UnicodeDecodeError, ValueError):
         return None, "not-literal"
     if zone and ip.version == 4:
         return None, "not-literal"
@@ -293,7 +289,7 @@ def gen_cases(ctx, policies):
             add(pi, "[2001:db8::5]:" + p, tag="port")
     # random byte strings and mutations of valid strings
     alphabet = b"0123456789abcdefx.:[]%-_ \x00\xffZ/@"
-    for _ in range(150 if quick else 3000):
+    for _ in range(150 if quick else 2000):
         if rng.random() < 0.5:
             s = bytes(rng.choice(alphabet) for _ in range(rng.randrange(0, 24)))
         else:
@@ -475,13 +471,16 @@ def run(ctx):
                        "change after admission, malformed strings, ports, mutation fuzz; a case is non-trivial if "
                        "hash-distinct (counted per outcome class); plus ingest->Proxy runs with a dial recorder")
     ctx.coq_props(extra_dirs=["C07"])
+    rc, out = ctx.coq_make(["C06/Examples.vo"])
+    if rc != 0:
+        ctx.broken("examples", "coq/C06/Examples.v (non-vacuity) no longer checks: %s" % out[-400:])
 
     rng = ctx.rng
     policies = list(FIXED_POLICIES)
     sp = shipped_policy()
     if sp:
         policies.append(sp)
-    for _ in range(8 if ctx.tier == "quick" else 60):
+    for _ in range(8 if ctx.tier == "quick" else 40):
         policies.append(rand_policy(rng))
     cases = gen_cases(ctx, policies)
     for c in cases:
@@ -489,7 +488,11 @@ def run(ctx):
             policies.append(c["policy_spec"])
             c["policy"] = len(policies) - 1
 
+    import time
+    t0 = time.time()
+    ctx.cov["phase_s"] = {"coq_props": round(t0 - ctx.t0, 1)}
     rc, out, res = ctx.go_inpkg(".", PKG, DRV, "^TestVerifC06Parse$", {"policies": policies, "cases": cases}, timeout=900)
+    ctx.cov["phase_s"]["go_parse"] = round(time.time() - t0, 1)
     if res is None or len(res.get("results", [])) != len(cases):
         ctx.broken("driver", "Go driver did not produce results: %s" % out[-800:])
         return
@@ -571,7 +574,9 @@ def run(ctx):
     ctx.require_kinds(["accepted/literal", "accepted/name", "rejected/nosplit", "rejected/dns-fail", "rejected/no-ip",
                        "rejected/policy-or-port", "canon-unchanged"])
 
-    mm = ctx.coq_mismatches("por", HEADER, [t for t, _ in terms], "chk", shard=250, need_vo=["C06/Run.vo"])
+    t1 = time.time()
+    mm = ctx.coq_mismatches("por", HEADER, [t for t, _ in terms], "chk", shard=250 if ctx.tier == "quick" else 700, need_vo=["C06/Run.vo"])
+    ctx.cov["phase_s"]["coq_cases"] = round(time.time() - t1, 1)
     if mm:
         ctx.cov["mismatches"] += len(mm)
         ctx.broken("correspondence", "model C06.Run.model and ParseOrResolveBlocklisted disagree on %d case(s); first: %r"
@@ -598,5 +603,7 @@ def run(ctx):
             ctx.cov["mismatches"] += len(mm)
             ctx.broken("correspondence", "model of Go's %s disagrees with Go on %d case(s)" % (op, len(mm)), lst[mm[0]][1])
 
+    t2 = time.time()
     run_dial(ctx)
+    ctx.cov["phase_s"]["go_dial"] = round(time.time() - t2, 1)
     ctx.require_kinds(["dial/admitted", "dial/rejected"])
